@@ -177,6 +177,76 @@ Proof. intros old new H. destruct old as [| |t]; try reflexivity. exfalso. apply
 
 Theorem write_inplace_follows_link : forall t new, write_inplace A (Link A t) new = (Link A t, Some new).
 Proof. reflexivity. Qed.
+
+(* ---- a whole run -------------------------------------------------------------------------------------------------- *)
+
+Lemma apply_op_at : forall d p w, nolink A d [(p, w)] ->
+  apply_op A eqb B d (p, w) p = Reg A (content_of A w).
+Proof.
+  intros d p w H. destruct w as [n|n|n]; simpl; unfold upd; rewrite Nat.eqb_refl.
+  - apply save_type_is_fresh.
+  - apply copy_skel_is_fresh.
+  - rewrite write_inplace_regular_is_fresh; [reflexivity|].
+    intros t. apply (H p n t). left. reflexivity.
+Qed.
+
+Lemma apply_op_other : forall d p w q, q <> p -> apply_op A eqb B d (p, w) q = d q.
+Proof.
+  intros d p w q H. apply Nat.eqb_neq in H. destruct w; simpl; unfold upd; rewrite H; reflexivity.
+Qed.
+
+Lemma nolink_head : forall d x outs, nolink A d (x :: outs) -> nolink A d [x].
+Proof. intros d x outs H p n t [E|[]]. apply (H p n t). left. exact E. Qed.
+
+Lemma nolink_step : forall d p w outs, nolink A d ((p, w) :: outs) -> nolink A (apply_op A eqb B d (p, w)) outs.
+Proof.
+  intros d p w outs H q n t Hin. destruct (Nat.eq_dec q p) as [E|E].
+  - subst q. rewrite apply_op_at; [discriminate|]. apply (nolink_head d (p, w) outs H).
+  - rewrite apply_op_other by exact E. apply (H q n t). right. exact Hin.
+Qed.
+
+Lemma run_dir_cons : forall d x outs, run_dir A eqb B d (x :: outs) = run_dir A eqb B (apply_op A eqb B d x) outs.
+Proof. reflexivity. Qed.
+
+(* two directories that agree on a set of paths agree, after the same run, on that set and on every path written *)
+Lemma run_dir_agree : forall outs d1 d2 (S : nat -> Prop),
+  nolink A d1 outs -> nolink A d2 outs -> (forall q, S q -> d1 q = d2 q) ->
+  forall q, S q \/ In q (map fst outs) -> run_dir A eqb B d1 outs q = run_dir A eqb B d2 outs q.
+Proof.
+  induction outs as [|[p w] outs IH]; intros d1 d2 S H1 H2 HS q Hq.
+  - simpl in *. destruct Hq as [Hq|[]]. apply HS. exact Hq.
+  - rewrite !run_dir_cons.
+    apply (IH _ _ (fun r => S r \/ r = p)).
+    + apply nolink_step. exact H1.
+    + apply nolink_step. exact H2.
+    + intros r Hr. destruct (Nat.eq_dec r p) as [E|E].
+      * subst r. rewrite !apply_op_at; [reflexivity | apply (nolink_head d2 _ outs H2) | apply (nolink_head d1 _ outs H1)].
+      * rewrite !apply_op_other by exact E. apply HS. destruct Hr as [Hr|Hr]; [exact Hr | contradiction].
+    + simpl in Hq. destruct Hq as [Hq|[Hq|Hq]].
+      * left. left. exact Hq.
+      * left. right. symmetry. exact Hq.
+      * right. exact Hq.
+Qed.
+
+(* every file the run writes is what a run into an empty directory leaves there, whatever the directory held ... *)
+Theorem run_dir_is_fresh : forall outs d, nolink A d outs ->
+  forall q, In q (map fst outs) -> run_dir A eqb B d outs q = run_dir A eqb B (empty_dir A) outs q.
+Proof.
+  intros outs d H q Hq. apply (run_dir_agree outs d (empty_dir A) (fun _ => False)).
+  - exact H.
+  - intros p n t _. unfold empty_dir. discriminate.
+  - intros r [].
+  - right. exact Hq.
+Qed.
+
+(* ... and everything else is left alone *)
+Theorem run_dir_untouched : forall outs d q, ~ In q (map fst outs) -> run_dir A eqb B d outs q = d q.
+Proof.
+  induction outs as [|[p w] outs IH]; intros d q H; [reflexivity|].
+  rewrite run_dir_cons. rewrite IH.
+  - apply apply_op_other. intro E. apply H. left. symmetry. exact E.
+  - intro Hin. apply H. right. exact Hin.
+Qed.
 End Proofs.
 
 (* ---- witnesses (closed terms, bytes as N) --------------------------------------------------------------------------- *)
@@ -223,3 +293,18 @@ Example identical_examples :
   identical_N 4 [1;2;3;4;5;6;7;8;9]%N [1;2;3;4;5;6;7;8]%N = false /\
   identical_N 4 []%N []%N = true /\ identical_N 4 []%N [1]%N = false /\ identical_N 4 [1]%N []%N = false.
 Proof. vm_compute. repeat split; reflexivity. Qed.
+
+(* a link where a file is rewritten in place: the run does not leave what a fresh run leaves (finding C12-inplace-file-through-symlink) *)
+Theorem run_dir_link_refuted : exists (d : dir N) (outs : list (nat * wop N)) (q : nat),
+  In q (map fst outs) /\ run_dir N N.eqb 4096 d outs q <> run_dir N N.eqb 4096 (empty_dir N) outs q.
+Proof.
+  exists (fun _ => Link N 7), [(0, WType N [1]%N); (1, WInplace N [2]%N)], 1.
+  split; [right; left; reflexivity|]. vm_compute. discriminate.
+Qed.
+
+(* with the length-only tail a whole run keeps a stale per-type file *)
+Theorem run_dir_tail_len_refuted : exists (d : dir N) (new : list N),
+  upd N d 0 (save_type_tail_len N N.eqb 4096 (d 0) new) 0 <> upd N (empty_dir N) 0 (save_type_tail_len N N.eqb 4096 (empty_dir N 0) new) 0.
+Proof.
+  exists (fun _ => Reg N [53]%N), [55]%N. vm_compute. discriminate.
+Qed.
